@@ -33,7 +33,10 @@ SRC = ("  SOURCE TRANSLATION, re-done on every run: tools/goxlate (go/ast + go/t
 EXTRA6 = {
  "C04": SRC + "C04_source_issues_specified_calls - for all 4096 combinations of the twelve interacting options x the nine others all off / all on (thorough: also exactly one on / "
         "one off) and for the nine others exhaustively with the twelve all off / all on, the calls that set identity, privileges, filter, session, names, working directory, cgroup "
-        "namespace and tracing, with their arguments and the clone flags, are those of the specification Launch/ChildSeq.v child_calls, in its order.",
+        "namespace and tracing, with their arguments and the clone flags, are those of the specification Launch/ChildSeq.v child_calls, in its order (each evaluation is repeated with every "
+        "field of the caller's structures that the specification does not know of set: a launch must not depend on them).  Launch/ChildSeqSec.v closes the chain for EVERY combination of the 21 options "
+        "and all values (no bound): C04_spec_projects_to_model - that specification, each call read as the security step it performs, IS the step sequence of the state model - and "
+        "C04_specified_calls_reach_requested_state - so the specified calls put the program into exactly the requested state.",
  "C05": SRC + "C05_source_issues_specified_calls (private root, tmpfs root, pivot, detach, read-only root: calls and flag words as specified, for the same option domains) and "
         "SRC_loops_as_specified (130 lists of mounts: directories / node created for the target, the mount, the remount of a read-only bind keeping exactly what statfs reports of "
         "nosuid/nodev/noexec/noatime/nodiratime/relatime; every call failing with six errnos is reported with its location and the index of the entry; EEXIST on a mount point is tolerated).",
